@@ -148,7 +148,7 @@ def k2(cx):
         def ev(nd):
             if nd['kind'] == 'call' and nd['name'].endswith('::push') and any(is_arg(a) for a in nd['args'][1:]):
                 return ('keep',)
-            if nd['kind'] in ('call', 'enter') and nd['name'] in UNSUB_NAMES and nd['args'] and is_arg(nd['args'][0]):
+            if nd['kind'] in ('call', 'enter') and not nd['ctx'] and nd['name'] in UNSUB_NAMES and nd['args'] and is_arg(nd['args'][0]):
                 return ('unsub',)
             return None
         bad = lang_check(g, 'keep | unsub', ev, exact=True, empty_ok=False)
